@@ -37,6 +37,7 @@ def motions():
         'rz30': M((-1.0, 0.5, 0.25), RZ30.T),
         'rx90': M((0.0, 0.5, -0.5), RX90.T),
         't2': M((-2.0, 1.5, 0.5)),
+        'id': M((0.0, 0.0, 0.0)),          # an explicit identity transformation is still a transformation
     }
 
 
@@ -53,7 +54,7 @@ def make_tr(deck, key, spelling, number):
 
 
 SPELL = ['inline', 'number', 'star', 'inline3', 'numstar']
-TKEYS = ['none', 't', 'rz90', 'rz30', 'rx90', 't2']
+TKEYS = ['none', 't', 'rz90', 'rz30', 'rx90', 't2', 'id']
 
 
 def build(ch, with_options=True):
@@ -75,7 +76,7 @@ def build(ch, with_options=True):
     trcl11 = ch.choose('trcl11', ['none', 't', 'rz90', 'rz30'])
     sptrcl = ch.choose('sptrcl', ['inline', 'number', 'star']) if trcl11 != 'none' else 'inline'
     utrcl = ch.choose('utrcl', ['none', 't', 'rz90'])
-    t2 = ch.choose('t2', ['none', 't2', 'rz90', 'rx90']) if depth >= 2 else 'none'
+    t2 = ch.choose('t2', ['none', 't2', 'rz90', 'rx90', 'id']) if depth >= 2 else 'none'
     t3 = ch.choose('t3', ['none', 't', 'rz30']) if depth >= 3 else 'none'
     u2split = ch.choose('u2split', [23, 24]) if depth >= 2 else 23
     imp19 = ch.choose('imp19', [1, 0])
